@@ -92,6 +92,8 @@ class Gen:
             f = r.choice(F.STD_MAPS)
             mk = F.MAP_KIND[f]
             kind = K[u] if mk == 'same' else (('tup', mk[1] or 0) if isinstance(mk, tuple) else mk)
+            if K[u] == 'opaque' and kind != 'int':
+                kind = 'opaque'         # a tuple built around an element that contains dicts is as unhashable as the element
             if f == 'addk':
                 return self._new('map', [u], kind, f=f, args=[r.randrange(3)], kwargs={'m': r.choice([1, 2])})
             return self._new('map', [u], kind, f=f)
